@@ -34,26 +34,43 @@ MANIFEST = {
                "chain, ExtractClassDiagram, LanguageCPP's type / name / default rendering helpers). THEOREMS: C19_adaptor_roundtrip -- for EVERY semantic "
                "class diagram D (Model/UmlSem.v: classes with stereotypes, abstract flag, documentation, operations with visibility / return type / "
                "modifier / abstract / query / static and parameters with basic or referenced type, direction, modifier, default, multiplicity, "
-               "attributes, enumeration literals; packages with member paths; generalisations / realisations; other shapes; referenced elements; every "
+               "attributes, enumeration literals; packages with member paths; generalisations / realisations; ASSOCIATIONS with both ends (class path, "
+               "multiplicity or none, aggregation kind, visibility code or the static code, getter / setter / read-only flags; the ends in either order: "
+               "rassoc_of specifies the order-dependent defaults of Association.ParseAssociation); values (defaults, initial values, multiplicities, "
+               "modifiers, documentation) may hold ','; documentation may be ANY quoted text (line breaks, apostrophes, parentheses: the specification "
+               "then states what mass_replace leaves of it); other shapes; referenced elements; every element with its own line-break style and, between "
+               "its properties, any number of INERT properties exactly as written (scalars, reference lists, owned elements the reader ignores such as "
+               "model views and qualifiers, free text such as an HTML documentation); every "
                "element's properties in ANY order between any noise properties) in the domain sdiagram_ok (extracted, evaluated on every generated "
                "diagram): adaptor (encode_project D) = Some (cdiagram_of D), object for object (C19_adaptor_roundtrip_objects: load = rdiagram_of D: "
                "names, namespaces from the package chain, stereotype flags, visibility, parameters, realisation vs generalisation, the shapes of the "
                "selected diagram), and from ANY project hosting D's rows (C19_adaptor_roundtrip_hosted; C19_adaptor_others_no_influence). "
                "C19_files_from_diagram / C19_decl_def_from_diagram / C19_realised_from_diagram: the generator theorems from D through the project file. "
                "Underneath: C19_adaptor_text_transparent (ParseBLOB_Recursive o str(bytes) o print = the dictionary a structured blob stands for: "
-               "stack machine + field segments + mass_replace), C19_adaptor_roundtrip_partial (dictionary-level read-back for every structured class "
-               "diagram, associations included), C19_adaptor_visibilities (wf_vis for everything read from a project file), C19_adaptor_calibration "
-               "(the structured writer reproduces every row of both shipped class diagrams byte for byte), C19_adaptor_source_shape (literal pins), "
-               "C19_adaptor_name_refuted (operator< is read as operator). WRITER ASSUMPTION: Model/UmlWriter.v + Model/UmlSem.v tree_of (how Visual "
-               "Paradigm lays a class diagram out), calibrated on the one shipped project at the structured-blob level. STILL PARTIAL: association ends "
-               "are not in the semantic domain (only the dictionary-level theorem covers them); values containing ',' (e.g. the default "
-               "'nullptr, nullptr') and free text with braces / separators (HTML documentation, K-C19-6) are outside sdiagram_ok. TIES: the extracted "
+               "stack machine WITH A STRING STATE + field segments with the quote-aware split + mass_replace; since the K-C19-6 repair free text "
+               "with braces, ';', '=', ':' and apostrophes inside quoted values -- HTML / CSS documentation -- is inside the domain; "
+               "C19_adaptor_brace_refuted: a brace in an unquoted value is not), C19_adaptor_structural (for every structured class diagram in the "
+               "text domain loading = loading with the parser replaced by the structural reading), C19_adaptor_visibilities (wf_vis for everything "
+               "read from a project file), C19_adaptor_calibration (the structured writer reproduces every row of both shipped class diagrams byte "
+               "for byte; ALL 39 and 49 shipped blobs lie in the text domain -- 38 and 40 before the repair; one of them, an association whose NAME "
+               "holds a colon, through C19_adaptor_text_transparent_colon (row names with colons: the header id:name:type is cut at every colon, "
+               "top_pv_c states the resulting entries); on all of them the reader model returns the stated dictionary), "
+               "C19_adaptor_semantic_calibration (THE two shipped class diagrams as semantic diagrams, Gen/UmlSemShipped.v regenerated from blob.xml: "
+               "157 / 357 meaningful and 461 / 999 inert properties; encode_project reproduces the shipped rows BYTE FOR BYTE and BOTH lie in "
+               "sdiagram_ok: the read-back theorem speaks about the shipped project itself), C19_adaptor_source_shape (literal pins, SplitOutsideQuotes "
+               "included), C19_adaptor_name_refuted (operator< is read as operator: K-C19-7). WRITER ASSUMPTION: Model/UmlWriter.v + Model/UmlSem.v tree_of (how Visual "
+               "Paradigm lays a class diagram out), calibrated on the one shipped project at the structured-blob level. OUTSIDE THE SEMANTIC DOMAIN: names of classes / packages / members with ':' (association names may hold colons) or with the "
+               "characters mass_replace deletes (K-C19-7); inert properties whose keys collide with a key the reader looks up in that kind of "
+               "element (they would not be inert); rows whose bytes hold an apostrophe but no double quote. TIES: the semantic diagram built from an object graph means that object graph (harness twin vs "
+               "rdiagram_of); the REAL adaptor on the SHIPPED file = the extracted rdiagram_of of the shipped semantic diagrams, and the extracted "
+               "encode_project of them = the shipped rows; the extracted "
                "writer encode_project writes project files that the REAL ExtractClassDiagram reads, compared field for field with the extracted "
                "rdiagram_of inside the domain; the Coq printer vs its Python twin tree by tree; parser / rendering helpers function level; damaged "
                "projects with agreeing exceptions; a share of the cases generated through Generate.UML from a synthesised project file.",
     "note": "Trusted: Coq kernel, extraction, translators uml.py / umlblob.py / vpp.py, sqlite3, CPython str methods and bytes.__repr__ (tied by "
-            "execution). The Visual Paradigm writer for class diagrams is an ASSUMPTION calibrated on the one shipped project. Association ends "
-            "are read back only at the dictionary level (C19_adaptor_roundtrip_partial); everything else of a class diagram by C19_adaptor_roundtrip. 'Accepted by a C++ compiler' is an observation (g++ 14 -fsyntax-only), not a theorem. "
+            "execution). The Visual Paradigm writer for class diagrams is an ASSUMPTION calibrated on the one shipped project. Associations, "
+            "like everything else of a class diagram, are read back by C19_adaptor_roundtrip. K-C19-6 (free text in quoted values was structure) is "
+            "repaired (78dbf9a; corpus/C19/free_text_injection.json reproduced it and passes now). 'Accepted by a C++ compiler' is an observation (g++ 14 -fsyntax-only), not a theorem. "
             "C#: file set and crash observation only (no C# compiler). Known findings K-C19-*.",
 }
 MANIFEST["text"] += " " + MANIFEST.pop("adaptor")
@@ -63,7 +80,8 @@ RULE = ("the two shipped class diagrams and mutants of them (1-4 random edits of
         "generator produced at least one class with operations; distinct = distinct (diagram, edits, options)")
 ASSUMPTIONS = [
     "operation visibilities are public/protected/private: a theorem for every diagram read from a project file (C19_adaptor_visibilities); a 'package' operation exists only in in-memory mutants (K-C19-4)",
-    "adaptor (sdiagram_ok): names, values and ids are plain text (printable ASCII without = < > ; \\ \" ' ( ) , { } and without leading/trailing blanks), no ':' in ids and element names, noise keys not among the reader's keys, no property key written twice, type names unchanged by CleanModifiersFromType, referenced ids known, every element drawn once, a class on at most one package path; no association shapes; free text without braces and separators (K-C19-6 outside)",
+    "adaptor (sdiagram_ok): names and ids are plain text (printable ASCII without = < > ; \\ \" ' ( ) , { } and without leading/trailing blanks), values likewise but ',' allowed unless nothing else is left (documentation: any quoted text without '=' and '<'), no ':' in ids and element names (association names may hold them), inert properties (any scalar / reference list / owned elements / free text in the text domain) whose keys are none of the keys the reader looks up in that kind of element and whose owned elements are not of a member type, line breaks CR LF or LF per element, no property key written twice, type names unchanged by CleanModifiersFromType, referenced ids known, every element drawn once, a class on at most one package path; association ends attached to known paths, ids / names of associations and ends not containing the reader's probe words (documentation_plain / readOnly)",
+    "adaptor (text domain wf_node / nbq_node / quote_ok): free text only inside closed double-quoted values; no brace in ids, names, types, keys, reference ids and unquoted values; no ':' in ids and names (K-C19-7)",
     "no realisation cycle among pure virtual interfaces (C19_cycle_refuted: RecursionError otherwise)",
     "files_hyp: class names non-empty without '.' and '/', namespace not ending in a separator, distinct output paths (two classes of one name in different packages collide when namespace folders are off: K-C19-5 is exactly distinct_paths = false)",
     "multiplicity 1 of a definition needs distinct signatures per class: an operation reached through two realisation paths is emitted twice (K-C19-1b); an operation both declared in the class and realised is emitted once since the fix (K-C19-1)",
@@ -294,7 +312,7 @@ def csharp(ctx, cd, label, nsf, edits):
 
 # ---------------------------------------------------------------- the input adaptor (Model/UmlBlob.v)
 
-BLOB_ALPHA = ["{", "}", ";", "=", ":", "<", ">", "(", ")", ",", '"', "'", " ", "\\r\\n\\t", "\\t", "a", "Child", "child_0", "type", "name", "x1", "Operation",
+BLOB_ALPHA = ["{", "}", ";", "=", ":", "<", ">", "(", ")", ",", '"', '"', "'", " ", "\\", '\\"', "\\r\\n\\t", "\\t", "a", "Child", "child_0", "type", "name", "x1", "Operation",
               "b'", "stereotypes", "abstract", "visibility=71", "<a:b>", "\n", "é"]
 
 
@@ -430,6 +448,9 @@ def semantic_ties(ctx):
             ctx.count("semantic_mutator_failed")
             continue
         ok = km.call("us_ok", S) == b"1"
+        # the semantic twin: the diagram built from the (normalised) object graph MEANS that object graph (ids it invents aside)
+        if ub.modid(ub.rdiagram_view(cd), cd) != ub.modid(km.call("us_rdiagram", S), cd):
+            ctx.tie_broken("correspondence harness/umlblob.Semantic vs UmlSem.rdiagram_of (the semantic diagram built from an object graph means it)", {"seed": seed, "i": i})
         db = vs.db_of_v(km.call("us_encode", S))
         with kj.scratch("kjv-umlsem-") as d:
             path = ub.project_path(d)
@@ -449,6 +470,32 @@ def semantic_ties(ctx):
                            "label": us.DIAGRAMS[i % 2], "mut_seed": 0, "nedits": 0})
         elif not ok:
             ctx.count("semantic_outside_domain_%s" % ("agrees" if real == want else "differs"))
+
+
+def shipped_semantic_tie(ctx):
+    """the two shipped class diagrams as SEMANTIC diagrams with every property the model has no meaning for kept as an inert property
+    (translator.umlblob.semantic_real, the source of Gen/UmlSemShipped.v): the extracted domain predicate accepts them, the extracted
+    writer encode_project reproduces the shipped rows byte for byte, and the REAL adaptor reading the SHIPPED project file returns
+    exactly the extracted specification rdiagram_of -- C19_adaptor_roundtrip observed on the real data"""
+    from translator import umlblob as tu
+    km = ctx.km
+    rows = {name: {r[0]: r for r in [x[1] for x in drawn] + refd} for (_d, name, drawn, refd) in tu.class_diagram_rows()}
+    for name, S in tu.semantic_real():
+        label = name.decode()
+        ctx.case(("shipped-semantic", label), nontrivial=True)
+        if km.call("us_ok", S) != b"1":
+            ctx.tie_broken("the shipped class diagram %s is outside sdiagram_ok (Gen/UmlSemShipped.v calibration)" % label, {"why": repr(km.call("us_why", S))[:600]})
+            continue
+        db = vs.db_of_v(km.call("us_encode", S))
+        bad = [m[0] for m in db[2] if m[0] not in rows[name] or rows[name][m[0]][4] != m[4]]
+        if bad or len(db[2]) != len(rows[name]):
+            ctx.tie_broken("encode_project of the semantic form of %s does not reproduce the shipped rows" % label, {"rows": repr(bad[:5])})
+        real, _cd, err = ub.real_load(us.BLOB_XML, name)
+        if real != [km.call("us_rdiagram", S)]:
+            ctx.violation("the shipped class diagram %s (inside the domain of C19_adaptor_roundtrip) is not read as specified: %s" % (label, err),
+                          {"finding_key": "uml-adaptor:shipped-semantic-roundtrip", "finding_class": "uml-adaptor", "label": label, "mut_seed": 0, "nedits": 0,
+                           "shipped_semantic": True})
+        ctx.count("shipped_semantic_in_domain")
 
 
 def separator_probe(ctx):
@@ -473,6 +520,46 @@ def separator_probe(ctx):
         ctx.violation("an operation drawn as operator< is read from the project file as %r" % [n for n in names if n.startswith("operator")][:1],
                       {"finding_key": "uml-adaptor:name-with-separator", "finding_class": "uml-adaptor:name-with-separator", "label": "TestClassDiagram",
                        "mut_seed": 0, "nedits": 0, "separator_probe": True})
+
+
+INJECTIONS = [b'note; abstract=T', b'note; stereotypes=<IF0000000000000>', b'css a { color: red } b {x:y:Operation}', b'a }; abstract=T; {']
+
+
+def injection_probe(ctx):
+    """K-C19-6 (repaired): free text in a quoted value (documentation) is data. Braces and `; key=` inside it must not change the structure
+    read from the project: the same classes, operations, attributes, interface flags and realisations as with a harmless text."""
+    cd = us.load("TestClassDiagram")
+    target = next(c for c in cd.classes.values() if c.OPERATIONS and not c.PURE_VIRTUAL_INTERFACE)
+    target.USER_COMMENTS = "INJECTHERE"
+    try:
+        db, name = ub.project_rows(random.Random(11), cd)
+    except ub.Unencodable:
+        return []
+    if not any(b'"INJECTHERE"' in m[4] for m in db[2]):
+        return []
+
+    def shape(cd2):
+        return sorted((c.NAME, bool(c.PURE_VIRTUAL_INTERFACE), sorted(o.NAME for o in c.OPERATIONS), sorted(a.NAME for a in c.ATTRIBUTES),
+                       sorted(x.NAME for x in c.INNER_CLASSES) if hasattr(c, "INNER_CLASSES") else []) for c in cd2.classes.values())
+
+    fails = []
+    base = None
+    for text in [b"note"] + INJECTIONS:
+        ms = [m[:4] + (m[4].replace(b'"INJECTHERE"', b'"' + text + b'"'),) for m in db[2]]
+        with kj.scratch("kjv-umlinj-") as d:
+            path = ub.project_path(d)
+            vs.write_project(path, (db[0], db[1], ms))
+            real, cd2, err = ub.real_load(path, name)
+        if ctx.km is not None and real != ctx.km.call("ub_load", vs.db_v((db[0], db[1], ms)), name):
+            ctx.tie_broken("correspondence ExtractClassDiagram vs UmlBlob.load_cdiagram (free text %r in a quoted value)" % text, {"error": err})
+        ctx.case(("adaptor-injection-probe", text))
+        got = shape(cd2) if cd2 is not None else ("load failed", err)
+        if base is None:
+            base = got
+        elif got != base:
+            fails.append("documentation %r of class %s changes what is read from the project: %s" % (
+                text.decode(), target.NAME, [x for x in got if x not in base][:2] if isinstance(got, list) else got))
+    return fails
 
 
 def adaptor_case(ctx, stack, cd, seed, meta=None):
@@ -596,7 +683,12 @@ def run(ctx):
         adaptor_ties(ctx)
         printer_tie(ctx)
         semantic_ties(ctx)
+        shipped_semantic_tie(ctx)
     separator_probe(ctx)
+    for detail in injection_probe(ctx):
+        ctx.violation(detail, {"finding_key": "uml-adaptor:free-text-injection", "finding_class": "uml-adaptor:free-text-injection", "label": "TestClassDiagram",
+                               "mut_seed": 0, "nedits": 0, "injection_probe": True})
+        break
     directed_probes(ctx)
     n = ctx.budget(60, 200)
     cases = [(label, 0, 0) for label in us.DIAGRAMS] + [("TestClassDiagram", -1, 0)]
@@ -642,6 +734,13 @@ def replay(ctx, data):
     if data.get("no_failing_input_found"):
         print(json.dumps(data.get("no_longer_checks"), indent=1, default=repr)[:3000])
         return False
+    if data.get("shipped_semantic"):
+        before = len(ctx.violations) + len(ctx.known)
+        if ctx.km is not None:
+            shipped_semantic_tie(ctx)
+        return len(ctx.violations) + len(ctx.known) == before
+    if data.get("injection_probe"):
+        return not injection_probe(ctx)
     if data.get("separator_probe"):
         before = len(ctx.violations) + len(ctx.known)
         separator_probe(ctx)
